@@ -226,7 +226,7 @@ def explore(job):
 
 
 def bases_for(tier, seed):
-    n = 16 if tier == "quick" else 320
+    n = 32 if tier == "quick" else 320
     rng = random.Random(core.h64(seed, "c24-bases"))
     bases = [dict(SIMPLE_BASE), dict(SIMPLE_BASE, n_samples=0, nit=3, bufsize=64),
              dict(SIMPLE_BASE, model="nl3", n_samples=2, sample_mode="nonlinear_resample", nit=3, callback=True),
